@@ -739,6 +739,11 @@ func main() {
 
 	h.fixedCorpus()
 	h.numerics(r, thorough)
+	// round 3: searches on the implementation alone + directed families (own PRNG streams, so the
+	// sequences above and below are what they were)
+	h.numSweep(cv.NewRand(1401), thorough)
+	h.shapes(cv.NewRand(1402), thorough)
+	h.dimDocs()
 
 	// every position of the two hand-written documents, every replacement
 	h.addDoc([]byte(mailDoc().text()), "valid/mail")
@@ -776,6 +781,8 @@ func main() {
 	}
 	h.rawDocs(r, nLoose/2)
 	h.bigDocs(r, thorough)
+
+	h.concurrent(8, 3)
 
 	if err := h.w.Flush(); err != nil {
 		panic(err)
